@@ -4,7 +4,8 @@
      grad u = sum_a u_a (x) g_a   (g_a = cartesian gradient of the a-th shape function at the point),
      F(u) = I + grad u,  B(u) = De(F(u)) . grad-operator,  De translated from __Build_De (Gen_De.v). *)
 From Coq Require Import Reals Lra List.
-From EFP Require Import C18_kinematics Gen_De.
+From EFModel Require Import C18_kinematics.
+From EFP Require Import Gen_De.
 Import ListNotations.
 Open Scope R_scope.
 
